@@ -573,4 +573,197 @@ example :
       some [[116], [97, 32, 98]] := by
   decide +kernel
 
+
+/-! ## (package p14) The child: vector and standard input of every `fork` of a run of `main`
+
+`Call.fork argv s` is issued by `Model.execP` only (util.c `exec()`), with the vector and the descriptor it was handed; a
+run of `main` reaches `execP` from `matches_exec` (an `exec` entry: `mh.argv`, filled by `match_interpolate`) and from the
+evaluation of a `command` condition (`Model.sysCall`: the C strings of the interpolated vector).  Everything below is for
+ARBITRARY results of all calls (`runOracle`).
+
+`C13_Configured conf strings macros`: `strings` is the string list of an `exec` ACTION of one of the rule trees of the
+configuration and `macros` is the table `path = <path of a message>` (what `matches_interpolate` passes), or `strings` is
+the string list of a `command` CONDITION and `macros` is absent (`expr_eval_command` passes NULL). -/
+
+/-- The configured string lists a child can be started from, with the macro table each is interpolated with. -/
+def C13_Configured (conf : List ConfBlock) (strings : List Bytes) (macros : Option (List (Bytes × Bytes))) : Prop :=
+  ∃ b ∈ conf, (Proofs.IsExecNode b.expr strings ∧ ∃ p, macros = some [(ofString "path", p)]) ∨
+    (Proofs.IsCmdNode b.expr strings ∧ macros = none)
+
+/-- **The child gets exactly the configured argument vector after interpolation.**  For every configuration, registry,
+input and for ARBITRARY results of all calls: every `fork` in the trace of `main` carries
+`strings.map (cstr ∘ interpolate before macros)` for the strings of an `exec` action or a `command` condition of the
+configuration (`C13_Configured`) - ONE argument per configured string, in the configured order, each the C string of
+the one-pass interpolation of that string (C12) in one context `before` of captures; every string does interpolate (a
+string that does not never reaches a `fork`: `C12_failed_template_fails_all`, `C13_command_interpolation_error`). -/
+theorem C13_child_argv (env : PEnv) (orc : EvalOracles) (ok : Bool) (conf : List ConfBlock) (files : Files) (input : Bytes)
+    (orcl : Nat → Call → Res) (j : Nat) (av : List Bytes) (s : Handle) (r : Res)
+    (h : (runOracle orcl (mainP env orc ok conf files input) 0 []).2[j]? = some (.fork av s, r)) :
+    ∃ (strings : List Bytes) (before : MatchList) (macros : Option (List (Bytes × Bytes))), C13_Configured conf strings macros ∧
+      av = strings.map (fun t => cstr ((interpolate before macros t).getD [])) ∧
+      ∀ t ∈ strings, (interpolate before macros t).isSome = true := by
+  have hmem := List.mem_of_getElem? h
+  rcases Proofs.calls_runOracle_mem (Proofs.Own.fa_mainP env orc ok conf files input) orcl 0 [] _ hmem with h0 | h1
+  · cases h0
+  · obtain ⟨b, hb, hc⟩ := h1
+    rcases hc with ⟨ss, before, mc, hs, hm, hav, hsome⟩ | ⟨ss, before, mc, hs, hm, hav, hsome⟩
+    · exact ⟨ss, before, mc, ⟨b, hb, .inl ⟨hs, hm⟩⟩, hav, hsome⟩
+    · exact ⟨ss, before, mc, ⟨b, hb, .inr ⟨hs, hm⟩⟩, hav, hsome⟩
+
+/-- **Same length, same order** (`C13_argv_length_order` on the TRACE): the vector of every `fork` has as many arguments as
+the action / condition has configured strings, and the k-th argument comes from the k-th string. -/
+theorem C13_child_argv_length_order (env : PEnv) (orc : EvalOracles) (ok : Bool) (conf : List ConfBlock) (files : Files)
+    (input : Bytes) (orcl : Nat → Call → Res) (j : Nat) (av : List Bytes) (s : Handle) (r : Res)
+    (h : (runOracle orcl (mainP env orc ok conf files input) 0 []).2[j]? = some (.fork av s, r)) :
+    ∃ (strings : List Bytes) (before : MatchList) (macros : Option (List (Bytes × Bytes))), C13_Configured conf strings macros ∧ av.length = strings.length ∧
+      ∀ k : Nat, av[k]? = (strings[k]?).map fun t => cstr ((interpolate before macros t).getD []) := by
+  obtain ⟨ss, before, mc, hc, hav, -⟩ := C13_child_argv env orc ok conf files input orcl j av s r h
+  refine ⟨ss, before, mc, hc, by rw [hav, List.length_map], fun k => ?_⟩
+  rw [hav, List.getElem?_map]
+
+/-- **No word splitting, no globbing, no quote removal, nothing prepended** (`C13_argv_no_splitting` on the TRACE): a
+configured string without `\`, `$` and NUL is the argument at its position byte for byte - blanks, quotes, `*` and all. -/
+theorem C13_child_argv_no_splitting (env : PEnv) (orc : EvalOracles) (ok : Bool) (conf : List ConfBlock) (files : Files)
+    (input : Bytes) (orcl : Nat → Call → Res) (j : Nat) (av : List Bytes) (s : Handle) (r : Res)
+    (h : (runOracle orcl (mainP env orc ok conf files input) 0 []).2[j]? = some (.fork av s, r)) :
+    ∃ (strings : List Bytes) (macros : Option (List (Bytes × Bytes))), C13_Configured conf strings macros ∧ av.length = strings.length ∧
+      ∀ (k : Nat) (t : Bytes), strings[k]? = some t → Proofs.Plain t → (0 : UInt8) ∉ t → av[k]? = some t := by
+  obtain ⟨ss, before, mc, hc, hlen, hk⟩ := C13_child_argv_length_order env orc ok conf files input orcl j av s r h
+  refine ⟨ss, mc, hc, hlen, fun k t ht hpl h0 => ?_⟩
+  rw [hk k, ht, Option.map_some, Proofs.interpolate_plain before mc t hpl, Option.getD_some,
+    cstr_of_no_nul fun b hb hb0 => h0 (hb0 ▸ hb)]
+
+/-- **No shell, no other program**: if the program (first string) of every `exec` action and `command` condition of the
+configuration is a plain string other than `prog`, no child of the run is started with `prog` as `argv[0]` - in particular
+no `sh` (`-c`) unless it is configured; and by `C13_child_argv_length_order` nothing is inserted before or between the
+configured arguments. -/
+theorem C13_no_shell (env : PEnv) (orc : EvalOracles) (ok : Bool) (conf : List ConfBlock) (files : Files)
+    (input : Bytes) (orcl : Nat → Call → Res) (j : Nat) (av : List Bytes) (s : Handle) (r : Res) (prog : Bytes)
+    (hcfg : ∀ strings macros, C13_Configured conf strings macros →
+      ∃ t0, strings[0]? = some t0 ∧ Proofs.Plain t0 ∧ (0 : UInt8) ∉ t0 ∧ t0 ≠ prog)
+    (h : (runOracle orcl (mainP env orc ok conf files input) 0 []).2[j]? = some (.fork av s, r)) :
+    av[0]? ≠ some prog := by
+  obtain ⟨ss, mc, hc, -, hk⟩ := C13_child_argv_no_splitting env orc ok conf files input orcl j av s r h
+  obtain ⟨t0, h0, hpl, hnul, hne⟩ := hcfg ss mc hc
+  rw [hk 0 t0 h0 hpl hnul]
+  intro e
+  exact hne (Option.some.inj e)
+
+/-- **In the words of the specification of C12**: for the k-th configured string `t` (of the documented template syntax) the
+k-th argument is the C string of `Spec.interp` of `t` - the token-wise substitution over the captures of the rule
+(`Proofs.ruleCaps before`) and the macro table.  Hypothesis `NulFree`: captured texts and the message's path hold no NUL
+(they are C strings in the implementation; `C12_interpolate`). -/
+theorem C13_child_argv_spec (env : PEnv) (orc : EvalOracles) (ok : Bool) (conf : List ConfBlock) (files : Files)
+    (input : Bytes) (orcl : Nat → Call → Res) (j : Nat) (av : List Bytes) (s : Handle) (r : Res)
+    (h : (runOracle orcl (mainP env orc ok conf files input) 0 []).2[j]? = some (.fork av s, r)) :
+    ∃ (strings : List Bytes) (before : MatchList) (macros : Option (List (Bytes × Bytes))), C13_Configured conf strings macros ∧ av.length = strings.length ∧
+      (Proofs.NulFree before macros → ∀ (k : Nat) (t : Bytes), strings[k]? = some t → Spec.itokens t ≠ .undefined →
+        ∃ v, Spec.interp (Proofs.ruleCaps before) macros t = some (some v) ∧ av[k]? = some (cstr v)) := by
+  obtain ⟨ss, before, mc, hc, hav, hsome⟩ := C13_child_argv env orc ok conf files input orcl j av s r h
+  refine ⟨ss, before, mc, hc, by rw [hav, List.length_map], fun hn k t ht hdom => ?_⟩
+  have hs := hsome t (List.mem_of_getElem? ht)
+  obtain ⟨v, hv⟩ := Option.isSome_iff_exists.1 hs
+  refine ⟨v, by rw [Proofs.interpolate_eq_spec before mc t hdom hn, hv], ?_⟩
+  rw [hav, List.getElem?_map, ht, Option.map_some, hv, Option.getD_some]
+
+/-- **An action list, exactly**: every `fork` of `matches_exec` on the list `ml` carries the `argv` field of an `exec` entry
+of `ml` - the field `C13_argv_exact` / `C13_argv_length_order` / `C13_argv_no_splitting` describe with the capture
+context named (`ml.take i` for the entry at position `i`); those statements about the FIELD are therefore statements about
+what the child receives. -/
+theorem C13_child_argv_list (env : PEnv) (ml : MatchList) (st : ExecSt) (orcl : Nat → Call → Res) (i : Nat)
+    (tr : List (Call × Res)) :
+    ∀ x ∈ (runOracle orcl (matchesExec env ml st) i tr).2, x ∈ tr ∨
+      ∀ av s, x.1 = .fork av s → ∃ mh ∈ ml, mh.ty = .exec ∧ av = mh.argv := by
+  intro x hx
+  have hc : Proofs.World.Calls (Proofs.ForkArgv fun av => ∃ mh ∈ ml, mh.ty = .exec ∧ av = mh.argv) (matchesExec env ml st) :=
+    Proofs.fa_matchesExec env ml st fun mh hmh hty => ⟨mh, hmh, hty, rfl⟩
+  rcases Proofs.calls_runOracle_mem hc orcl i tr x hx with h0 | h1
+  · exact .inl h0
+  · refine .inr fun av s e => ?_
+    rw [e] at h1
+    exact h1
+
+/-- **A `command` condition, exactly** (with `C13_command_condition`): when its entry can be appended and its strings
+interpolate to `av`, the calls of the condition are those of `exec(argv, -1)` on the C strings of `av` - so its `fork` carries
+`av.map cstr`, one argument per configured string, and `/dev/null` as standard input (`C13_child_stdin`). -/
+theorem C13_child_argv_command (env : Env) (root : Msg) (lno : Nat) (argv : List Bytes)
+    (part : Nat) (m : Msg) (st : St) (ml : MatchList) (av : List Bytes)
+    (happ : matchesAppend env st.ml { ty := .command, lno := lno, part := part, strings := argv } = (ml, false))
+    (hav : argv.mapM (interpolate ml.dropLast none) = some av) :
+    (evalT env root (.command lno argv) part m st).toProg =
+      (execP (av.map cstr) none).bind fun rc =>
+        .ret (if rc == 0 then .match else if rc < 0 then .error else .nomatch, { st with ml := ml.dropLast }) := by
+  rw [C13_command_condition env root lno argv part m st ml av happ hav]
+  simp only [ask, Ask.ask_bind, Ask.ret_bind, Ask.toProg, sysCall, Proofs.World.bind_assoc, Proofs.World.ret_bind, ansStatus]
+  rfl
+
+/-- **The child's standard input.**  For ARBITRARY results of all calls: the handle `s` of every `fork` of a run of `main` -
+the descriptor the child `dup2`s onto 0 - is
+
+* the handle the call JUST BEFORE the `fork`, a successful `open("/dev/null", O_RDONLY|O_CLOEXEC)`, returned (no `stdin`
+  option; every `command` condition), or
+* a descriptor that the call just before the `fork`, a successful `lseek(s, 0, SEEK_SET)`, has rewound, and that was
+  obtained from `fcntl(F_DUPFD_CLOEXEC)` (`exec stdin`: the message's descriptor, whose file holds the CURRENT message -
+  `C13_exec_stdin_sees_current`) or from `mkostemp(O_CLOEXEC)` (`exec stdin body` / inside an attachment block: a file of its
+  own holding the decoded body / the part - `C11_exec_stdin_body_after_rewrite`, `C11_exec_stdin`);
+
+and the descriptors the run has created and not released at that point are at most two directory streams, the message's
+descriptor and `s` itself (`ForkFdsOf`; each born close-on-exec: `C13_fd_cloexec`) - so, with descriptors 0, 1, 2 of the
+process, the child has `s` on 0 and inherits nothing else. -/
+theorem C13_child_stdin (env : PEnv) (orc : EvalOracles) (ok : Bool) (conf : List ConfBlock) (files : Files) (input : Bytes)
+    (orcl : Nat → Call → Res) (j : Nat) (av : List Bytes) (s : Handle) (r : Res)
+    (h : (runOracle orcl (mainP env orc ok conf files input) 0 []).2[j]? = some (.fork av s, r)) :
+    let tr := (runOracle orcl (mainP env orc ok conf files input) 0 []).2.take j
+    (tr.getLast? = some (.openPath (ofString "/dev/null"), .ok s) ∨
+      ∃ rl, tr.getLast? = some (.lseek s, rl) ∧ rl.isErr = false ∧
+        ((∃ fd, (Call.dupfd fd, Res.ok s) ∈ tr) ∨ ∃ t, (Call.mkostemp t, Res.ok s) ∈ tr)) ∧
+    Proofs.Own.ForkFdsOf tr s := by
+  intro tr
+  have hf := Proofs.Own.fd_hygiene_of env orc ok conf files input orcl j av s r h
+  obtain ⟨ds, m, h1, h2, h3, h4, hcs⟩ := hf
+  exact ⟨hcs, ds, m, h1, h2, h3, h4, hcs⟩
+
+/-! Non-vacuity of the statements about the child (evaluated runs of `main`, `Proofs/WorldFdsEx.lean`): `match all exec
+{ "printf" "a b 'c' *" "-x" }` - the `fork` (call 8) carries these three strings as three arguments and the handle 6 that
+call 7, `open("/dev/null")`, returned; the configured strings are an `exec` node of the tree, all plain.  `match all exec stdin
+"cat"`: the `fork` (call 9) carries `["cat"]` and the handle 6 that `fcntl(F_DUPFD_CLOEXEC)` returned (call 7) and `lseek`
+rewound (call 8).  `match command "false" move "/d"`: the `fork` of the condition (call 8) carries `["false"]` and `/dev/null`. -/
+example :
+    Proofs.FdsEx.traceA[8]? = some (.fork [ofString "printf", ofString "a b 'c' *", ofString "-x"] 6, .ok 0) ∧
+    Proofs.FdsEx.traceA[7]? = some (.openPath (ofString "/dev/null"), .ok 6) ∧
+    C13_Configured Proofs.FdsEx.confA [ofString "printf", ofString "a b 'c' *", ofString "-x"] (some [(ofString "path", [])]) ∧
+    (∀ t ∈ [ofString "printf", ofString "a b 'c' *", ofString "-x"], Proofs.Plain t ∧ (0 : UInt8) ∉ t) ∧
+    (Proofs.FdsEx.trace true)[9]? = some (.fork [ofString "cat"] 6, .ok 0) ∧
+    (Proofs.FdsEx.trace true)[7]? = some (.dupfd 5, .ok 6) ∧ (Proofs.FdsEx.trace true)[8]? = some (.lseek 6, .ok 0) ∧
+    Proofs.FdsEx.traceC[8]? = some (.fork [ofString "false"] 6, .ok 0) ∧
+    C13_Configured Proofs.FdsEx.confC [ofString "false"] none :=
+  ⟨Proofs.FdsEx.tablesA.2, Proofs.FdsEx.tablesA.1,
+   ⟨_, List.mem_singleton.2 rfl, .inl ⟨by simp [Proofs.FdsEx.ruleA, Proofs.IsExecNode], _, rfl⟩⟩, by decide +kernel,
+   Proofs.FdsEx.tables.2.2.2.2.1, Proofs.FdsEx.before_fork.2.1, Proofs.FdsEx.before_fork.2.2, Proofs.FdsEx.tablesC.2.1,
+   ⟨_, List.mem_singleton.2 rfl, .inr ⟨by simp [Proofs.FdsEx.ruleC, Proofs.IsCmdNode], rfl⟩⟩⟩
+
+/-- The theorems applied to the first of these runs: the vector of its `fork` has the three configured strings as its three
+arguments; the descriptors open at the `fork` are a directory stream, the message and the handle 6 of the `fork`, which is
+the `/dev/null` of the call before (`Proofs.FdsEx.tablesA`). -/
+example :
+    (∃ (strings : List Bytes) (macros : Option (List (Bytes × Bytes))), C13_Configured Proofs.FdsEx.confA strings macros ∧ 3 = strings.length ∧
+      ∀ (k : Nat) (t : Bytes), strings[k]? = some t → Proofs.Plain t → (0 : UInt8) ∉ t →
+        [ofString "printf", ofString "a b 'c' *", ofString "-x"][k]? = some t) ∧
+    Proofs.Own.ForkFdsOf (Proofs.FdsEx.traceA.take 8) 6 :=
+  ⟨C13_child_argv_no_splitting _ _ _ _ _ _ _ 8 _ 6 _ Proofs.FdsEx.tablesA.2,
+   (C13_child_stdin _ _ _ _ _ _ _ 8 _ 6 _ Proofs.FdsEx.tablesA.2).2⟩
+
+/-- Non-vacuity of `C13_no_shell`: the configuration of that run names one program, `printf`; its hypothesis holds for
+`prog = sh`, so the child was not started with `sh`. -/
+example : ([ofString "printf", ofString "a b 'c' *", ofString "-x"] : List Bytes)[0]? ≠ some (ofString "sh") := by
+  refine C13_no_shell _ _ _ Proofs.FdsEx.confA _ _ _ 8 _ 6 _ (ofString "sh") ?_ Proofs.FdsEx.tablesA.2
+  rintro ss mc ⟨b, hb, hc⟩
+  rw [Proofs.FdsEx.confA, List.mem_singleton] at hb
+  subst hb
+  rcases hc with ⟨hn, -⟩ | ⟨hn, -⟩
+  · simp only [Proofs.FdsEx.ruleA, Proofs.IsExecNode, false_or] at hn
+    subst hn
+    exact ⟨ofString "printf", rfl, by decide +kernel, by decide +kernel, by decide +kernel⟩
+  · simp [Proofs.FdsEx.ruleA, Proofs.IsCmdNode] at hn
+
 end Mdsort.Props
